@@ -103,6 +103,12 @@ def cfg_phasor(tier, seed):
     # fixed: the documented default plane, and a scalar-amplitude plane with explicit off-centre mask
     out.append({'shape': [0, 0], 'amp': 'scalar', 'opd': 'scalar', 'mask': 'none', 'segs': [[]], 'cls': 'Plane', 'inc': 'after-plane', 'default': True})
     out.append({'shape': [0, 0], 'amp': 'scalar', 'opd': 'scalar', 'mask': 'none', 'segs': [[]], 'cls': 'Plane', 'inc': 'default', 'default': True})
+    out.append({'shape': [0, 0], 'amp': 'scalar', 'opd': 'scalar', 'mask': 'none', 'segs': [[]], 'cls': 'Plane', 'inc': 'after-segments', 'default': True})
+    for shp2 in ([2, 3], [3, 4]):
+        cells2 = [[r, c] for r in range(shp2[0]) for c in range(shp2[1])]
+        out.append({'shape': shp2, 'amp': 'scalar', 'opd': 'scalar', 'mask': 'none', 'segs': [[]], 'cls': 'Plane', 'inc': 'after-segments'})
+        out.append({'shape': shp2, 'amp': 'array', 'opd': 'array', 'mask': '2d', 'segs': [cells2[1:-1]], 'cls': 'Plane', 'inc': 'after-segments'})
+        out.append({'shape': shp2, 'amp': 'array', 'opd': 'scalar', 'mask': '3d', 'segs': [cells2[::2], cells2[1::2]], 'cls': 'Pupil', 'inc': 'after-segments'})
     for corner in ([[0, 3], [1, 3], [0, 2]], [[2, 0]], [[2, 3], [2, 2]]):
         out.append({'shape': [0, 0], 'amp': 'scalar', 'opd': 'scalar', 'mask': 'none', 'segs': [[]], 'cls': 'Plane', 'inc': 'after-offcentre', 'default': True, 'corner': corner})
         for cls in ('Plane', 'Pupil'):
@@ -129,6 +135,15 @@ def run_phasor(W, cfg):
         s0 = shp if not default else (2, 2)
         p0 = lt.Plane(amplitude=W.reals('a0', s0, nz=True), opd=W.reals('o0', s0))
         w = lt.Wavefront(lam) * p0
+    elif cfg['inc'] == 'after-segments':
+        # a wavefront that already carries several fields (a two-segment plane came first)
+        s0 = shp if not default and shp != (0, 0) else (2, 3)
+        m0 = rnp.zeros((2,) + s0, dtype=int)
+        m0[0, :, : max(1, s0[1] // 2)] = 1
+        m0[1, :, max(1, s0[1] // 2):] = 1
+        p0 = lt.Plane(amplitude=W.reals('a0', s0, nz=True), opd=W.reals('o0', s0), mask=m0)
+        w = lt.Wavefront(lam) * p0
+        W.ob_true('the incoming wavefront carries two fields', len(w.data) == 2)
     elif cfg['inc'] == 'after-offcentre':
         # a field that sits off the plane centre (non-zero offset), non-square: what follows must act on it where it is
         s0 = (3, 4)
